@@ -1268,6 +1268,9 @@ class Symbolic(
       # If `notify_parents` is set to False, stop notifications once `self`
       # is processed.
       if target is self and not notify_parents:
+        # The ancestors are not notified, yet their content has changed.
+        if self.sym_parent is not None:
+          self.sym_parent._sym_reset_content_caches()  # pylint: disable=protected-access
         break
 
   def _sym_reset_content_caches(
